@@ -359,6 +359,15 @@ func (fc *FnCtx) transIdent(env *Env, name string) (Val, types.Type) {
 			}
 			fc.tfail("no range index cell for loop %d in scope", ord)
 		}
+		// rangedN: the slice ranged over by range-over-slice loop N (evaluated once before the loop)
+		if n, err := fmt.Sscanf(name, "ranged%d", &ord); n == 1 && err == nil && fmt.Sprintf("ranged%d", ord) == name {
+			if rv := fc.rangedValue(ord); rv != nil {
+				if v, ok := fc.regs[rv].(*Term); ok {
+					return v, rv.Type()
+				}
+			}
+			fc.tfail("no ranged slice for loop %d in scope", ord)
+		}
 		if v, ok := env.cells(name); ok {
 			return v.v, v.t
 		}
